@@ -53,6 +53,8 @@ def build(spec):
         return Record(spec[1])
     if t == 'c':
         return Celsius(float(spec[1]))
+    if t == 'Z':
+        return iter([build(x) for x in spec[1]])           # a one-shot iterator: looking at its items uses them up
     if t == 'T':
         import builtins
         return getattr(builtins, spec[1])           # a class object (list, dict, str ...) passed as an argument (a factory / a kind)
